@@ -268,9 +268,18 @@ class Builder:
             if k == "addc":
                 return ift.Adder(self.field(t["c"], t["c_im"]), neg=t["neg"]) @ a
             if k == "mulc":
+                if self.flip(t, "staticeinsum"):
+                    n = len(t["d"])
+                    mle = ift.MultiLinearEinsum(ift.MultiDomain.make({"e0": self.sp(n)}), "i,i->i", key_order=("st", "e0"),
+                                                static_mf=ift.MultiField.from_dict({"st": self.field(t["d"], t["d_im"])}))
+                    return mle @ a.ducktape_left("e0")
                 return ift.makeOp(self.field(t["d"], t["d_im"])) @ a
             if k == "lin":
                 m = (np.array(t["rows"], dtype=np.float64) + 1j * np.array(t["rows_im"], dtype=np.float64)).reshape(t["m"], t["n"])
+                if self.flip(t, "lineinsum"):
+                    dm = ift.DomainTuple.make((self.sp(t["m"])[0], self.sp(t["n"])[0]))
+                    mf = ift.MultiField.from_dict({"mat": ift.makeField(dm, m)})
+                    return ift.LinearEinsum(self.sp(t["n"]), mf, "ij,j->i", key_order=("mat",)) @ a
                 if t["m"] == t["n"]:
                     return ift.MatrixProductOperator(self.sp(t["n"]), m) @ a
                 return dense_op(ift, self.sp(t["n"]), self.sp(t["m"]), m) @ a
